@@ -19,6 +19,15 @@ import (
 // VerifDir is the root of the verification tree (run.sh exports its own directory).
 var VerifDir = verifDir()
 
+// RepoDir is the tree of paulsonkoly/calc the checks run against: /repo, unless VERIF_REPO names a scratch
+// copy (used only by the seeded-change experiments, never by a registered command).
+func RepoDir() string {
+	if d := os.Getenv("VERIF_REPO"); d != "" {
+		return d
+	}
+	return "/repo"
+}
+
 func verifDir() string {
 	if d := os.Getenv("VERIF_DIR"); d != "" {
 		return d
@@ -407,7 +416,7 @@ func CheckMain(id, tier string, self string) int {
 	if c.NeedsCalcBinary {
 		calcBin = filepath.Join(scratch, "calc")
 		cmd := exec.Command("go", "build", "-o", calcBin, "./cmd/calc")
-		cmd.Dir = "/repo"
+		cmd.Dir = RepoDir()
 		cmd.Env = append(os.Environ(), "GOFLAGS=-mod=mod", "GOPROXY=off", "GOSUMDB=off", "GOTOOLCHAIN=local")
 		if out, err := cmd.CombinedOutput(); err != nil {
 			fmt.Fprintf(os.Stderr, "building cmd/calc failed: %v\n%s\n", err, out)
